@@ -6,8 +6,10 @@ if ! git diff --quiet; then echo "/repo has uncommitted changes"; exit 2; fi
 git apply /verif/seeded/$id/patch.diff || { echo "patch does not apply"; exit 2; }
 cd /verif
 for p in "$@"; do
-  bin/vcheck -property $p -out /verif/out/seed-$id -evidence-dir /verif/out/seed-$id/evidence 2>&1 | grep -E "VIOLATION|ENGINE|^property" | cut -c1-220
-  echo "rc($p)=$?"
+  bin/vcheck -property $p -out /verif/out/seed-$id -evidence-dir /verif/out/seed-$id/evidence > /verif/out/seed-$id.$p.log 2>&1
+  rc=$?
+  grep -E "VIOLATION|ENGINE|^property" /verif/out/seed-$id.$p.log | cut -c1-220
+  echo "rc($p)=$rc"
 done
 git -C /repo checkout -- . && git -C /repo status --short | head -3
 # restore evidence of the unchanged tree afterwards (checks rewrite it)
